@@ -28,6 +28,12 @@ type keptBytes struct {
 	snap  []byte // private copy taken at that moment
 }
 
+type keptIntsT struct {
+	label string
+	live  []int
+	snap  []int
+}
+
 type keptPacket struct {
 	label string
 	live  *packet.Packet
@@ -51,11 +57,12 @@ var (
 	keptP     []keptPacket
 	keptL     []keptPtrs
 	keptV     []keptView
+	keptI     []keptIntsT
 	firstNote string // first discrepancy noted directly (same2, noteUnstable)
 )
 
 func stableReset() {
-	keptB, keptP, keptL, keptV, firstNote = keptB[:0], keptP[:0], keptL[:0], keptV[:0], ""
+	keptB, keptP, keptL, keptV, keptI, firstNote = keptB[:0], keptP[:0], keptL[:0], keptV[:0], keptI[:0], ""
 }
 
 // keep records a byte slice handed out by (or handed to) the library and returns it.
@@ -64,6 +71,14 @@ func keep(label string, b []byte) []byte {
 		keptB = append(keptB, keptBytes{label, b, append([]byte(nil), b...)})
 	}
 	return b
+}
+
+// keepInts records a list of integers (a PID list) handed out by or handed to the library.
+func keepInts(label string, l []int) []int {
+	if l != nil {
+		keptI = append(keptI, keptIntsT{label, l, append([]int(nil), l...)})
+	}
+	return l
 }
 
 // keepPkt records a packet the library handed out (or was given) by pointer.
@@ -198,6 +213,13 @@ func unstable() string {
 		if !bytes.Equal(k.live, k.snap) {
 			i := firstDiff(k.snap, k.live)
 			return fmt.Sprintf("%s changed after it was handed out: byte %d of %d was %02x, now %02x", k.label, i, len(k.snap), k.snap[i], k.live[i])
+		}
+	}
+	for _, k := range keptI {
+		for i := range k.snap {
+			if k.live[i] != k.snap[i] {
+				return fmt.Sprintf("%s changed after it was handed out: element %d was %d, now %d", k.label, i, k.snap[i], k.live[i])
+			}
 		}
 	}
 	for _, k := range keptP {
